@@ -112,7 +112,10 @@ def resolvePath (ds : DescSet) (m : Msg) : List Int → Outcome (Option FieldD)
       else
         match ds.msg? (targetFull f.target) with
         | some m' => resolvePath ds m' rest
-        | none => .panic "message descriptor not in the set"
+        -- a message of a dependency file (well-known / j5 type): its fields are not in the
+        -- summary; reached only when a flattened path is walked in a message other than the one
+        -- it was built from (colliding schema names), where Go answers "field not found"
+        | none => .err "newPropSet: field not found"
 
 /-- every path of a property list resolves (`newPropSet`) -/
 def resolveAll (ds : DescSet) (m : Msg) : List RProp → Outcome Unit
